@@ -196,6 +196,7 @@ Proof.
   - constructor; [cbn; lia|constructor].
   - constructor; [cbn; lia|constructor; [cbn; lia|constructor]].
   - right. apply Bits.pow2_1.
+  - lia.
   - right. apply Bits.pow2_1.
   - lia.
   - lia.
